@@ -9,6 +9,7 @@ import (
 	"errors"
 	"fmt"
 	"os"
+	"strconv"
 	"strings"
 	"testing"
 
@@ -39,6 +40,7 @@ type inCfg struct {
 	finWith bool // close immediately after the last write (FIN together with the data)
 	chain   bool // allow a second consumption step per callback
 	client  bool
+	script  []string // fixed consumption step per callback (one callback per segment: the peer waits); no choices
 }
 
 type inState struct {
@@ -171,6 +173,34 @@ func (w *world) consume(ci *connInfo, st *inState, op string) {
 		w.consume(ci, st, op[i+1:])
 		return
 	}
+	if strings.HasPrefix(op, "discard:") || strings.HasPrefix(op, "next:") {
+		n, _ := strconv.Atoi(op[strings.IndexByte(op, ':')+1:])
+		want := n
+		if buffered < want {
+			want = buffered
+		}
+		if strings.HasPrefix(op, "discard:") {
+			m, err := c.Discard(n)
+			if m != want || err != nil {
+				fail("count", "Discard(%d) = %d, %v with %d buffered", n, m, err, buffered)
+			}
+			ci.consumed = append(ci.consumed, streamBytes(pos, m)...)
+			return
+		}
+		b, err := c.Next(n)
+		if n > buffered {
+			if err == nil {
+				fail("count", "Next(%d) with %d buffered returned %d bytes and no error", n, buffered, len(b))
+			}
+			return
+		}
+		if err != nil || len(b) != n {
+			fail("count", "Next(%d) = %d bytes, %v with %d buffered", n, len(b), err, buffered)
+		}
+		take(b, fmt.Sprintf("Next(%d)", n))
+		st.nextViews, st.nextWants = append(st.nextViews, b), append(st.nextWants, append([]byte{}, b...))
+		return
+	}
 	switch op {
 	case "nothing":
 	case "next-all":
@@ -291,7 +321,7 @@ func inWorld(c inCfg) *world {
 		total += s
 	}
 	st := &inState{total: total}
-	if c.mode == "LT" {
+	if c.mode == "LT" && c.script == nil {
 		w.deviate = func(site string, fd int, n int) []string {
 			if site == "read" && n > 1 && mcsys.Owner(fd) == "fw" {
 				return []string{"short1", "shorthalf"}
@@ -301,7 +331,15 @@ func inWorld(c inCfg) *world {
 	}
 	w.onTraffic = func(w *world, ci *connInfo) Action {
 		w.inInvariant(ci, st, "at OnTraffic entry")
-		op := inOps[sched.Choose(len(inOps), "consume")]
+		var op string
+		if c.script != nil {
+			op = "next-all"
+			if ci.traffics-1 < len(c.script) {
+				op = c.script[ci.traffics-1]
+			}
+		} else {
+			op = inOps[sched.Choose(len(inOps), "consume")]
+		}
 		if f := os.Getenv("MC_FORCE"); f != "" { // development aid: force the consumption steps
 			steps := strings.Split(f, ";")
 			if ci.traffics-1 < len(steps) {
@@ -310,7 +348,7 @@ func inWorld(c inCfg) *world {
 		}
 		w.consume(ci, st, op)
 		w.inInvariant(ci, st, "after "+op)
-		if c.chain && op != "next-all" {
+		if c.chain && op != "next-all" && c.script == nil {
 			second := []string{"nothing", "next-all", "peek-all+discard1", "read1", "next1", "discard1"}
 			op2 := second[sched.Choose(len(second), "consume2")]
 			w.consume(ci, st, op2)
@@ -349,6 +387,12 @@ func inWorld(c inCfg) *world {
 			for i, s := range c.segs {
 				p.send(streamBytes(off, s))
 				off += s
+				if c.script != nil {
+					// one callback per segment: wait until this one has been handled
+					k := i + 1
+					sched.BlockUntil(func() bool { return len(w.conns) > 0 && w.conns[0].traffics >= k })
+					sched.WaitIdle()
+				}
 				if i == len(c.segs)-1 && c.finWith {
 					p.close()
 				}
@@ -546,6 +590,26 @@ func inSchedConfigs() ([]sched.Config, func(string) *sched.Config) {
 			out = append(out, sched.Config{Property: "C01", Name: c.name, Bounds: bounds, Horizon: 20000, Deadline: seqmc.Deadline(), DelayBounded: true, New: func() sched.Scenario { return inClientWorld(c) }})
 		}
 	}
+	// scripted histories (no consumption choices, schedule deviations only): states of the inbound ring
+	// that the choice-bounded scenarios above do not reach
+	for _, mode := range []string{"LT", "ET"} {
+		for _, sc := range []inCfg{
+			// the leftover ring (1024) wraps: 800 kept, 700 discarded, 100+600 more kept; then one Peek
+			// over ring head, ring tail and the fresh read buffer
+			{name: "wrapped-ring+peek-all", segs: []int{800, 100, 600, 50}, script: []string{"nothing", "discard:700", "nothing", "peek-all+discard-all"}},
+			{name: "wrapped-ring+peek-across", segs: []int{800, 100, 600, 50}, script: []string{"nothing", "discard:700", "nothing", "peek-across+discard"}},
+			{name: "wrapped-ring+read-all", segs: []int{800, 100, 600, 50}, script: []string{"nothing", "discard:700", "nothing", "read-all"}},
+			{name: "wrapped-ring+discard-across-end", segs: []int{800, 100, 600, 50}, script: []string{"nothing", "discard:700", "nothing", "discard:500", "next-all"}},
+			// Next(n) and Read(p) spanning a short leftover and the fresh read buffer
+			{name: "next-across-leftover", segs: []int{10, 20, 5}, script: []string{"nothing", "next:16", "next-all"}},
+			{name: "read-across-leftover", segs: []int{10, 20, 5}, script: []string{"nothing", "read-all", "next-all"}},
+		} {
+			c := sc
+			c.mode = mode
+			c.name = "in/scripted/" + mode + "/" + sc.name
+			out = append(out, sched.Config{Property: "C01", Name: c.name, Bounds: engineBounds(1, 2, 0), Horizon: 20000, Deadline: seqmc.Deadline(), DelayBounded: true, New: func() sched.Scenario { return inWorld(c) }})
+		}
+	}
 	for _, mode := range []string{"LT", "ET"} {
 		mode := mode
 		out = append(out, sched.Config{Property: "C01", Name: "in/pending-outbound-then-close/" + mode, Bounds: engineBounds(1, 2, 0), Horizon: 20000, Deadline: seqmc.Deadline(), DelayBounded: true,
@@ -553,6 +617,11 @@ func inSchedConfigs() ([]sched.Config, func(string) *sched.Config) {
 	}
 	if !thorough {
 		keep := map[string]bool{"in/pending-outbound-then-close/LT": true, "in/pending-outbound-then-close/ET": true}
+		for _, c := range out {
+			if strings.HasPrefix(c.Name, "in/scripted/") {
+				keep[c.Name] = true
+			}
+		}
 		for _, c := range out {
 			if strings.HasPrefix(c.Name, "in/client/") {
 				keep[c.Name] = true
